@@ -5,6 +5,7 @@ From PV Require Import Base.Sx Model.Forest Model.Table Model.LRDriver Model.Sca
 From PV Require Import Extract.RunC19.
 From PV Require Import Extract.RunC12.
 From PV Require Import Extract.RunC09.
+  Validators.TableStruct Extract.Codec Extract.RunC13.
 Import ListNotations.
 Local Open Scope N_scope.
 
@@ -76,5 +77,12 @@ Definition run (cmd : N) (arg : sx) : sx :=
   | 120 => run_c12_120 arg
   | 121 => run_c12_121 arg
   | 90 | 91 | 92 | 93 | 94 | 95 => run_c09 cmd arg
+  | 130 => run_c13_0 arg
+  | 131 => run_c13_1 arg
+  | 132 => run_c13_2 arg
+  | 133 => run_c13_3 arg
+  | 134 => run_c13_4 arg
+  | 135 => run_c13_5 arg
+  | 136 => run_c13_6 arg
   | _ => L [A 999999]
   end.
